@@ -70,6 +70,18 @@ def judge_ckd_priv(ctx, case):
     except Exception as e:  # noqa
         return ctx.judge("ckd_priv", False, case, exp.fields(), e, cls=_cls(case), outcome="raised",
                          mech="C01.ckd_priv.raised")
+    tr = case.get("transport")
+    if tr:
+        # the derived node travels through Python's object protocol (what multiprocessing, a cache on disk or a defensive
+        # copy does): the copy must say what the original says.  A class that refuses to be copied / pickled is fine.
+        import copy
+        import pickle
+        try:
+            child = {"copy": copy.copy, "deepcopy": copy.deepcopy,
+                     "pickle0": lambda o: pickle.loads(pickle.dumps(o, 0)), "pickle2": lambda o: pickle.loads(pickle.dumps(o, 2)),
+                     "pickle5": lambda o: pickle.loads(pickle.dumps(o, 5))}[tr](child)
+        except Exception as e:  # noqa
+            return ctx.judge("ckd_priv", True, case, exp.fields(), e, cls="transport|%s|refused" % tr, outcome="transport-refused")
     if case.get("orphan") and not case.get("reuse"):
         # the caller keeps ONLY the derived node (the parent was a temporary): what the child prints must not depend on the
         # parent object still being alive
@@ -252,7 +264,8 @@ def run(ctx):
                     case = {"k": k, "c": gen.rbytes(rnd, 32), "depth": d, "ktag": ktag, "ctag": "c:random",
                             "pindex": 0 if d == 0 else 7, "pfp": b"\x00" * 4 if d == 0 else b"\x01\x02\x03\x04",
                             "testnet": bool(n & 1), "form": ("ctor", "str")[n % 2], "index": i, "orphan": n % 3 == 0,
-                            "via": ("ckd", "derive_path", "generate_children")[(n // 3) % 3]}
+                            "via": ("ckd", "derive_path", "generate_children")[(n // 3) % 3],
+                            "transport": (None, None, "copy", "deepcopy", "pickle0", "pickle2", "pickle5")[n % 7]}
                     judge_ckd_priv(ctx, case)
         # 2. random cases
         recent = []
@@ -282,6 +295,7 @@ def run(ctx):
             case["reuse"] = True
             case["via"] = rnd.choice(["ckd", "ckd", "derive_path", "generate_children", "wallet.by_path"])
             case["all_versions"] = rnd.random() < 0.15
+            case["transport"] = rnd.choice([None] * 8 + ["copy", "deepcopy", "pickle2", "pickle5"])
             recent.append(case)
             del recent[:-12]
             judge_ckd_priv(ctx, case)
